@@ -87,15 +87,17 @@ func LossLessSwap(input sdkmath.Int, ratio sdkmath.LegacyDec, inputScale, output
 		scaleReverseMultipler = sdkmath.LegacyNewDecWithPrec(1, -scaleFactor)
 	}
 
-	// Calculate output
-	outputDec := inputDec.Clone().Mul(scaleMultipler).Mul(ratio)
+	// Calculate output (truncating, so that the output is never worth more than the input)
+	outputDec := inputDec.Clone().MulTruncate(scaleMultipler).MulTruncate(ratio)
 	outputInt := outputDec.Clone().TruncateDec()
 
-	// Adjust input if there are decimal places in the output
+	// Adjust input if there are decimal places in the output: give back the whole input units
+	// that produced the fraction (the fraction is expressed in the output token, so it is
+	// divided by the ratio), rounded down so that what stays burned covers the output
 	if !outputDec.Equal(outputInt) {
 		outputFrac := outputDec.Clone().Sub(outputInt)
-		inputFrac := outputFrac.Mul(scaleReverseMultipler)
-		input = inputDec.Sub(inputFrac).TruncateInt()
+		inputFrac := outputFrac.MulTruncate(scaleReverseMultipler).QuoTruncate(ratio)
+		input = input.Sub(inputFrac.TruncateInt())
 	}
 
 	return input, outputInt.TruncateInt()
